@@ -116,4 +116,22 @@ PROPS = {
                         "the reference walker and the library may differ in what they accept; only 'both accept => same content' is asserted",
                         "non-termination is decided by CPU time (30 s for inputs that normally take microseconds), confirmed by an isolated re-run with 60 s"],
     },
+    "C19": {
+        "level": "exploration",
+        "features": ["crypto", "hooks"],
+        "stages": [
+            {"mode": "native", "cpu_budget": 30},
+            {"mode": "asan", "scale": 0.1, "cpu_budget": 120},
+            {"mode": "miri", "scale": 0.001, "shards": 16, "tiers": ["thorough"], "timeout_thorough": 3000},
+        ],
+        "rule": "an evaluation is one octet string parsed as a whole message by the new MessageParser and by the established Message/RecordSection/"
+                "AllRecordData path (accept/reject and item-by-item content compared; record types only one codec interprets structurally are excluded from the "
+                "accept/reject comparison), one name parsed at a given offset by ParsedName, RevNameBuf and NameBuf, or one build script (questions and records of "
+                "the 16 types both builders support, four size classes incl. tiny buffers with failing pushes and fillers placing names around offset 16384) "
+                "executed on both builders, each result read by the reference walker (content + pointer well-formedness) and cross-read by both codecs; "
+                "distinct = (verdict pair, mutation kind, item count, record types seen) resp. (size class, items, failed pushes, size bucket)",
+        "assumptions": ["like is compared with like: 'the established codec accepts a record' means header and AllRecordData parsing both succeed, because the new parser parses record data eagerly",
+                        "an additional-section record starting 00 00 29 is the new parser's EDNS item and the established parser's OPT record",
+                        "names are compared case-insensitively after building (compression may change spelling), exactly after parsing"],
+    },
 }
